@@ -164,6 +164,7 @@ contract(
     requires=_avail_requires + [
         ("not-forced", "not force"),
         ("ledger", "Ledger(self)"),
+        ("entries", "EntriesFit(self)"),
         ("lists", "forall(s, forall(t, implies(s != t and s in self.slotTaskUsage and t in self.slotTaskUsage, "
                   "self.slotTaskUsage[s] != self.slotTaskUsage[t])))"),
         ("eff", "attr(self.property, 'efficiency', self.scenarioIdx) is None or some(attr(self.property, 'efficiency', self.scenarioIdx)) >= 0"),
@@ -173,6 +174,7 @@ contract(
     ensures=[
         # C01: the ledger invariant is preserved; the slot is filled exactly, never over-filled
         ("ledger", "Ledger(self)"),
+        ("entries", "EntriesFit(self)"),
         ("lists", "forall(s, forall(t, implies(s != t and s in self.slotTaskUsage and t in self.slotTaskUsage, "
                   "self.slotTaskUsage[s] != self.slotTaskUsage[t])))"),
         ("refused", "implies(result == 0 and old(used(self, sb_idx)) >= 0, forall(s, used(self, s) == old(used(self, s)) and usage(self, s) == old(usage(self, s))))"),
@@ -184,7 +186,8 @@ contract(
         ("frame", "forall(s, implies(s != sb_idx, used(self, s) == old(used(self, s)) and usage(self, s) == old(usage(self, s))))"),
         ("board-size", "self.scoreboard == old(self.scoreboard) and len(some(self.scoreboard).sb) == old(len(some(self.scoreboard).sb))"),
         # no other resource's ledger is touched
-        ("others", "forall(o, 'Ref:ResourceScenario', implies(o != self and old(RSsep(o, self)), LedgerSame(o) and RSsep(o, self)))"),
+        ("others", "forall(o, 'Ref:ResourceScenario', implies(o != self and old(RSsep(o, self)), LedgerSame(o) and RSsep(o, self) and "
+                   "implies(old(EntriesFit(o)), EntriesFit(o)) and implies(old(ListsDistinct(o)), ListsDistinct(o))))"),
         # C02: a booking happens only in a slot the resource is on shift for
         ("on-shift", "implies(result > 0, old(OnShiftSpec(self, sb_idx)))"),
         # C03: effort credited = seconds taken x efficiency
